@@ -23,6 +23,7 @@ PlusOnly  == {"+"}
 ShapeOps  == {"+", "-", "*", "/", "**"}
 PairCmps  == {"<", ">=", "=="}
 LtOnly    == {"<"}
+AndOr     == {"and", "or"}
 AllCmps   == {"<", "<=", ">", ">=", "==", "!="}
 FortIdxs  == {0, -1, 1}
 FortNums  == {"2", "0.5", "0.1", "3"}
